@@ -126,6 +126,7 @@ type DispatchEntry struct {
 	Target *ssa.Function
 	In     *ssa.Function // function that builds / contains the table
 	Pos    token.Pos
+	At     ssa.Instruction // the map update that installs the row (nil for a row of a lookup function)
 }
 
 // MapLiteralDispatch finds map literals (MakeMap + MapUpdate with constant string keys) in the
@@ -236,7 +237,7 @@ func (c *Ctx) MapLiteralDispatch() map[*ssa.Function][]DispatchEntry {
 			if t == nil {
 				return
 			}
-			out[fn] = append(out[fn], DispatchEntry{Method: k, Target: t, In: fn, Pos: mu.Pos()})
+			out[fn] = append(out[fn], DispatchEntry{Method: k, Target: t, In: fn, Pos: mu.Pos(), At: mu})
 		})
 	}
 	return out
